@@ -497,6 +497,30 @@ pub fn gen_ptwin(t: &mut Tape) -> Scenario {
     if g.t.draw(3) == 2 {
         s = g.un(s, UnOp::Shuffle);
     }
+    if g.t.draw(4) == 3 {
+        // the window inside a replay body: the first round sees the client's timing, the later
+        // rounds the stored input at full speed; every round must flush all of its windows and
+        // start the next one empty
+        let s2 = g.unlimited(s);
+        let a = g.attrs[s2].take().unwrap();
+        let spec = LoopSpec {
+            iterate: false,
+            rounds: 2 + g.t.draw(3) as usize,
+            stop_mod: 0,
+            stop_rem: 0,
+            agg: AggFn::Count,
+            body: vec![Step::Un(0, UnOp::Win(kind, WinAgg::Members))],
+            body_out: 1,
+            use_state: false,
+            cond_sleep_us: [0u64, 0, unit_us / 3, unit_us * 2][g.t.draw(4) as usize],
+        };
+        g.steps.push(Step::Loop(s2, spec));
+        g.attrs.push(Some(Attr { repl: Repl::One, depth: a.depth, len: 1, keys: 1 }));
+        let st = g.attrs.len() - 1;
+        g.attrs[st].take();
+        g.steps.push(Step::Sink(st, SinkKind::CollectVec));
+        return g.finish();
+    }
     let w = g.un(s, UnOp::Win(kind, WinAgg::Members));
     g.attrs[w].take();
     g.steps.push(Step::Sink(w, SinkKind::CollectVec));
